@@ -1,4 +1,226 @@
 import CV.Model.Line
+import CV.Model.LineSpec
+import CV.Model.Irc
+import CV.Proofs.Line
+import CV.Proofs.Irc
+/-
+C18 — the line protocol is segmentation-invariant; IRC messages are exactly one line.
+
+Every `theorem` below is a proof obligation of the property (audited with `#print axioms`).
+Models: CV/Model/Line.lean (`circuits/protocols/line.py`), CV/Model/Irc.lean
+(`circuits/protocols/irc/message.py`, `utils.py: parsemsg`, `commands.py`).
+Spec predicates: CV/Model/LineSpec.lean (`isReading`, `untaggedOk`), `Irc.oneLine`,
+`Irc.wellFormed`.  Helper lemmas: CV/Proofs/Line.lean, CV/Proofs/Irc.lean.
+-/
 namespace CV.C18
-theorem placeholder : True := trivial
+open CV CV.Line CV.Irc
+
+/-! ## Line protocol -/
+
+/-- The buffer kept after a read never contains LF — whatever buffer it started from.
+    (Stronger than preservation of the invariant: the hypothesis `LF ∉ buffer` is not needed.) -/
+theorem buffer_no_lf (buffer data : Bytes) : LF ∉ (feed buffer data).1 :=
+  feed_buf_noLF buffer data
+
+/-- The invariant along any sequence of reads: a buffer without LF (in particular the
+    initial `b''`) stays without LF. -/
+theorem buffer_no_lf_all (buffer : Bytes) (reads : List Bytes) (h : LF ∉ buffer) :
+    LF ∉ (feedAll buffer reads).1 :=
+  feedAll_buf_noLF buffer reads h
+
+example : LF ∉ ([] : Bytes) := by simp
+example : LF ∉ ([97, 13] : Bytes) := by decide
+
+/-- Two reads `a`, `b` give the lines and the final buffer of the single read `a ++ b`.
+    (Holds for every carried buffer; `LF ∉ buf` is not needed.) -/
+theorem split_hom (buf a b : Bytes) :
+    feed buf (a ++ b) =
+      ((feed (feed buf a).1 b).1, (feed buf a).2 ++ (feed (feed buf a).1 b).2) :=
+  feed_append buf a b
+
+/-- Every cut list — including byte-at-a-time and empty segments — gives the result of
+    the one read of the concatenation. -/
+theorem segmentation_invariant (buf : Bytes) (segs : List Bytes) (h : LF ∉ buf) :
+    feedAll buf segs = feed buf segs.flatten :=
+  feedAll_eq_feed_flatten buf segs h
+
+example : LF ∉ ([97, 13] : Bytes) ∧
+    feedAll [97, 13] [[], [10, 98], [], [13], [10], [99]] = ([99], [[97], [98]]) := by decide
+
+/-- Hence any two segmentations of the same byte stream are indistinguishable. -/
+theorem segmentation_irrelevant (buf : Bytes) (segs segs' : List Bytes) (h : LF ∉ buf)
+    (hsame : segs.flatten = segs'.flatten) : feedAll buf segs = feedAll buf segs' := by
+  rw [segmentation_invariant buf segs h, segmentation_invariant buf segs' h, hsame]
+
+example : ([[97, 13], [10, 98]] : List Bytes).flatten = ([[97], [13, 10], [], [98]] : List Bytes).flatten := by
+  decide
+
+/-- The emitted lines are exactly the LF/CRLF-terminated lines of the stream, and the
+    unterminated tail (including a trailing CR) is held: the output is a legal reading. -/
+theorem lines_exact (x : Bytes) : isReading x (splitT x).1 (splitT x).2 = true := by
+  have h := scan_isReading [] x (by simp)
+  rw [isReading_iff]
+  simpa [splitT] using h
+
+/-- A stream has only one legal reading, so `lines_exact` is a complete specification. -/
+theorem reading_unique (x : Bytes) (ls : List (Bytes × Bool)) (t : Bytes)
+    (h : isReading x ls t = true) : (ls, t) = splitT x := by
+  rw [isReading_iff] at h
+  exact (reading_unique_aux ls t x h.1 h.2.1 h.2.2).symm
+
+example : isReading [97, 13, 10, 10, 98, 13] [([97], true), ([], false)] [98, 13] = true := by decide
+
+/-- The predicate the driver evaluates on the implementation's (untagged) output accepts
+    only the true answer. -/
+theorem untagged_spec_sound (x : Bytes) (ls : List Bytes) (t : Bytes)
+    (h : untaggedOk x ls t = true) :
+    ls = (splitT x).1.map (·.1) ∧ t = (splitT x).2 := by
+  obtain ⟨tl, hm, hr⟩ := untaggedOk_sound x ls t h
+  have := reading_unique x tl t hr
+  rw [← this]
+  exact ⟨hm.symm, rfl⟩
+
+example : untaggedOk [97, 13, 10, 10, 98, 13] [[97], []] [98, 13] = true := by decide
+
+/-- ... and it accepts the true answer. -/
+theorem untagged_spec_complete (x : Bytes) (ls : List Bytes) (t : Bytes)
+    (h : ls = (splitT x).1.map (·.1) ∧ t = (splitT x).2) : untaggedOk x ls t = true := by
+  obtain ⟨rfl, rfl⟩ := h
+  exact untaggedOk_complete x _ _ (lines_exact x)
+
+example : ([[97], []] : List Bytes) = (splitT [97, 13, 10, 10, 98, 13]).1.map (·.1) ∧
+    ([98, 13] : Bytes) = (splitT [97, 13, 10, 10, 98, 13]).2 := by decide
+
+/-- End to end: from the initial empty buffer, under every segmentation, the `line` events
+    and the held buffer satisfy the driver's spec predicate for the whole stream. -/
+theorem feedAll_lines_exact (segs : List Bytes) :
+    untaggedOk segs.flatten (feedAll [] segs).2 (feedAll [] segs).1 = true := by
+  rw [segmentation_invariant [] segs (by simp)]
+  apply untagged_spec_complete
+  simp [feed, splitLines]
+
+/-- Server mode: the lines emitted for socket `s` and its final buffer are those of the
+    client-mode protocol run on the reads addressed to `s` alone (in order) — reads for
+    other sockets have no influence.  (Holds for every initial buffer table.) -/
+theorem server_isolation (bufs : Bufs) (reads : List (Nat × Bytes)) (s : Nat) :
+    (((serverFeedAll bufs reads).2.filter (fun r => r.1 == s)).map (·.2)
+        = (feedAll (getBuf bufs s) ((reads.filter (fun r => r.1 == s)).map (·.2))).2) ∧
+    getBuf (serverFeedAll bufs reads).1 s
+        = (feedAll (getBuf bufs s) ((reads.filter (fun r => r.1 == s)).map (·.2))).1 :=
+  server_isolation_aux bufs reads s
+
+/-- Server mode, combined with segmentation invariance: what socket `s` sees depends only
+    on the concatenation of the bytes addressed to `s`. -/
+theorem server_isolation_stream (bufs : Bufs) (reads : List (Nat × Bytes)) (s : Nat)
+    (h : LF ∉ getBuf bufs s) :
+    (((serverFeedAll bufs reads).2.filter (fun r => r.1 == s)).map (·.2)
+        = (feed (getBuf bufs s) ((reads.filter (fun r => r.1 == s)).map (·.2)).flatten).2) ∧
+    getBuf (serverFeedAll bufs reads).1 s
+        = (feed (getBuf bufs s) ((reads.filter (fun r => r.1 == s)).map (·.2)).flatten).1 := by
+  have := server_isolation bufs reads s
+  rw [segmentation_invariant _ _ h] at this
+  exact this
+
+example : LF ∉ getBuf [(7, [97, 13]), (8, [98])] 7 ∧
+    serverFeedAll [(7, [97, 13]), (8, [98])] [(8, [10]), (7, [10, 99]), (8, [100, 10])]
+      = ([(8, []), (7, [99])], [(8, [98]), (7, [97]), (8, [100])]) := by decide
+
+/-- What the line protocol hands to the IRC parser for a rendered message: a stream
+    `x ++ CRLF` with no LF in `x` is the single line `x`, nothing held. -/
+theorem line_of_render (x : Bytes) (h : LF ∉ x) : splitT (x ++ [CR, LF]) = ([(x, true)], []) := by
+  have hok : lineOk (x, true) = true := by rw [lineOk_iff]; exact ⟨h, Or.inl rfl⟩
+  have := scan_line (x, true) [] hok
+  simpa [splitT, term, scan] using this
+
+example : LF ∉ ([80, 73, 78, 71, 32, 97] : Bytes) := by decide
+
+/-! ## IRC messages -/
+
+/-- `str(message)` is the body followed by CRLF. -/
+theorem render_is_body_crlf (p : Policy) (m : Msg) (w : Str) (h : render p m = some w) :
+    w = body m ++ ['\r', '\n'] :=
+  (render_eq_some h).2
+
+example : render Policy.current ⟨none, some "PING".toList, ["a".toList]⟩ = some "PING a\r\n".toList := by
+  decide
+
+/-- Every message that serialises at all serialises to exactly one CRLF-terminated line —
+    for every prefix, command and argument list. -/
+theorem one_line (m : Msg) (w : Str) (h : render Policy.current m = some w) : oneLine w = true := by
+  obtain ⟨hc, rfl⟩ := render_eq_some h
+  exact oneLine_crlf _ (body_noBrk m hc)
+
+example : render Policy.current ⟨some "n!u@h".toList, some "PRIVMSG".toList, ["#c".toList, "hi there".toList]⟩
+    = some ":n!u@h PRIVMSG #c :hi there\r\n".toList := by decide
+
+/-- The repaired defect: under the old check (`'\n'` in arguments only) a bare CR in an
+    argument, or CR LF in the command, went onto the wire. -/
+theorem one_line_legacy_witness :
+    (render Policy.legacy ⟨none, some "PRIVMSG".toList, ["a".toList, "x\ry".toList]⟩).map oneLine
+      = some false ∧
+    (render Policy.legacy ⟨none, some "srv\r\nQUIT".toList, ["nick".toList]⟩).map oneLine
+      = some false := by decide
+
+/-- The same for every command constructor of `irc/commands.py` and every argument list. -/
+theorem constructors_one_line (name : Str) (args : List (Option Str)) (w : Str)
+    (h : render Policy.current (construct name args) = some w) : oneLine w = true :=
+  one_line _ w h
+
+example : render Policy.current (construct "WHOIS".toList [some "nick".toList, some "srv".toList])
+    = some "WHOIS srv nick\r\n".toList := by decide
+
+/-- Round trip: a well-formed message, rendered (without CRLF, which the line protocol
+    removes — `line_of_render`) and parsed, gives back its prefix, command and arguments.
+    `ws` is the whitespace predicate of `str.split()`; only `ws ' '` is assumed. -/
+theorem roundtrip (ws : Char → Bool) (hws : ws ' ' = true) (m : Msg)
+    (hwf : wellFormed ws m = true) : parsemsg ws (body m) = some (expectedParse m) := by
+  obtain ⟨pfx, command, args⟩ := m
+  simp only [wellFormed, Bool.and_eq_true] at hwf
+  obtain ⟨⟨⟨hp, hc⟩, hinit⟩, hlast⟩ := hwf
+  cases command with
+  | none => simp at hc
+  | some cmd =>
+    have hcmd : Tok ws cmd := (tokOk_iff ws cmd).1 hc
+    have hinit' : ∀ a ∈ args.dropLast, Tok ws a := by
+      intro a ha
+      exact (tokOk_iff ws a).1 (List.all_eq_true.1 hinit a ha)
+    have hlast' : ∀ a, args.getLast? = some a → lastOk ws a = true := by
+      intro a ha
+      simpa [ha] using hlast
+    have hrest := parseRest_rendered hws cmd args hcmd hinit' hlast'
+    cases pfx with
+    | none =>
+      have hb : body ⟨none, some cmd, args⟩ = cmd ++ ' ' :: joinSp (markLast args) := by
+        simp [body, prefixPart, cmdStr]
+      rw [hb, parsemsg_noprefix ws _ (head?_tok_append cmd _ hcmd), hrest]
+      rfl
+    | some p =>
+      have hp' : ' ' ∉ p := by simpa using hp
+      have hb : body ⟨some p, some cmd, args⟩
+          = ':' :: p ++ ' ' :: (cmd ++ ' ' :: joinSp (markLast args)) := by
+        simp [body, prefixPart, cmdStr]
+      rw [hb, parsemsg_prefix ws p _ hp', hrest]
+      rfl
+
+example : pyIsSpace ' ' = true ∧
+    wellFormed pyIsSpace ⟨some "n!u@h".toList, some "PRIVMSG".toList,
+      ["#c".toList, "hi\tthere :)".toList]⟩ = true := by decide
+
+/-- The shapes `wellFormed` excludes really do not survive the wire format (they are
+    inherent to IRC, not defects): an empty argument, a middle argument with a leading colon,
+    a final argument with a leading colon, a final argument with whitespace but no space,
+    a prefix containing a space. -/
+theorem roundtrip_excluded_witness :
+    parsemsg pyIsSpace (body ⟨none, some "X".toList, ["".toList, "a".toList]⟩)
+      ≠ some (expectedParse ⟨none, some "X".toList, ["".toList, "a".toList]⟩) ∧
+    parsemsg pyIsSpace (body ⟨none, some "X".toList, [":a".toList, "b".toList]⟩)
+      ≠ some (expectedParse ⟨none, some "X".toList, [":a".toList, "b".toList]⟩) ∧
+    parsemsg pyIsSpace (body ⟨none, some "X".toList, [":a".toList]⟩)
+      ≠ some (expectedParse ⟨none, some "X".toList, [":a".toList]⟩) ∧
+    parsemsg pyIsSpace (body ⟨none, some "X".toList, ["a\tb".toList]⟩)
+      ≠ some (expectedParse ⟨none, some "X".toList, ["a\tb".toList]⟩) ∧
+    parsemsg pyIsSpace (body ⟨some "p q".toList, some "X".toList, ["a".toList]⟩)
+      ≠ some (expectedParse ⟨some "p q".toList, some "X".toList, ["a".toList]⟩) :=
+  ⟨by decide, by decide, by decide, by decide, by decide⟩
+
 end CV.C18
